@@ -1,7 +1,7 @@
 (* run_case: the single entry point of the extracted model.  One case term in, one observation
    term out; the same function is evaluated with vm_compute for the extraction cross-check. *)
 From Coq Require Import String.
-From AvroV Require Import Base Varint Schema Bytes Names Codec Validate Rabin SingleObject Container Sink Sexp.
+From AvroV Require Import Base Varint Schema Bytes Names Codec Validate Rabin SingleObject Container Sink Settings Sexp.
 Local Open Scope string_scope.
 
 Definition run_fuel : nat := 300.
@@ -209,6 +209,20 @@ Definition run_case (x : sexp) : sexp :=
         | _, _ => obs_bad
         end
       | _ => obs_bad
+      end
+    else if op =? "settings" then
+      (* (settings (g v) | (s v) ...) : one linearised schedule on one write-once cell *)
+      match mapM (fun o => match o with
+                           | L [Sym t; Num v] => if t =? "g" then Some (GetOrInit v)
+                                                 else if t =? "s" then Some (TrySet v) else None
+                           | _ => None end) args with
+      | Some ops =>
+        let '(c, outs) := srun None ops in
+        L (Sym "ok" :: map (fun o => match o with
+                                     | Got v => L [Sym "got"; Num v]
+                                     | Accepted => L [Sym "accepted"]
+                                     | Rejected _ => L [Sym "rejected"] end) outs)
+      | None => obs_bad
       end
     else if op =? "rabin" then
       match args with
